@@ -23,10 +23,34 @@ type prog struct {
 	want []string // expected outcome set (verdict kinds appear as VIOLATION:<kind>)
 }
 
+// viaJob programs are explored through hk.ExploreJob (the path the checks use), which starts a job over
+// when state that lives as long as the process changes the choice structure between executions.
+func viaJob(p prog) bool { return p.name == "process-global-lazy-cache" }
+
+// processCache is state of the "code under test" that outlives an execution: the first execution of a
+// process builds it (and meets other scheduling points than every later one).
+var processCache sync.Map
+
 type box struct{ x, y int }
 
 func progs() []prog {
 	return []prog{
+		{"process-global-lazy-cache", func() string {
+			var mu sync.Mutex
+			b := &box{}
+			for i := 0; i < 2; i++ {
+				vrt.Go(func() {
+					if _, ok := processCache.Load("k"); !ok {
+						processCache.Store("k", 1)
+					}
+					mu.Lock()
+					b.x++
+					mu.Unlock()
+				})
+			}
+			vrt.Join()
+			return fmt.Sprint(b.x)
+		}, []string{"2"}},
 		{"mutex-counter", func() string {
 			var mu sync.Mutex
 			b := &box{}
@@ -287,7 +311,21 @@ func run(ps []prog) {
 			seen := map[string]bool{}
 			ex := &vrt.Explorer{Bound: -1, Permute: true, Body: p.body, RaceDetail: hk.RaceDetail}
 			ex.OnViolation = func(v *vrt.Violation) bool { return true }
-			ex.Explore(nil, false)
+			if viaJob(p) {
+				r := hk.ExploreJob("LITMUS", job, deadline, ex, nil)
+				if len(r.Violations) > 0 {
+					return r
+				}
+				// the first attempt in this process met the cache being built: it must have been noticed
+				// (a prefix replayed against other enabled-set signatures) and the job started over
+				if r.Counts["restarts_after_process_global_warmup"] < 1 {
+					res.Violations = append(res.Violations, hk.Viol{Scn: job.Scn, Name: p.name, Kind: "oracle", Detail: "the change of choice structure caused by process-global state went unnoticed (no restart)"})
+					return res
+				}
+				res.Add("restarts_after_process_global_warmup", r.Counts["restarts_after_process_global_warmup"])
+			} else {
+				ex.Explore(nil, false)
+			}
 			for k := range ex.Outcomes {
 				seen[k] = true
 			}
